@@ -15,6 +15,7 @@ CONSTANTS
   ImportToks <- MCImports
   CmtToks <- MCCmt
   NeverPruned <- MCNever
+  RootToks <- MCRootAll
   Cfgs <- MCCfgs
   ImpPairs <- MCPairs
   InitSchemas <- MCInit3
